@@ -1,20 +1,20 @@
 (* The translated buffer hand-over protocol (MiniCConc machine on Gen/Src_conc.v) follows PipeConc:
-   SRC_protocol_follows_PipeConc_proof.  Layers: RefineConcStep*.v (machine side), RefineE2EfRel*.v (relation), this file (assembly). *)
+   SRC_protocol_follows_PipeConc_proof.  Layers: RefineConcStep*.v (machine side), RefineConcRel*.v (relation), this file (assembly). *)
 From Coq Require Import ZArith NArith List String Bool Lia Arith.
-From Wencry Require Import Bytes FileModel ModesProofs PipeConc PipeProps PipeLemmas MiniC MiniCLemmas MiniCConc SrcRun.
-From Wencry Require Import RefineConcPipe RefineE2EfPipe RefineConcDone.
-From Wencry Require Import RefineE2EfLay RefineE2EfMach RefineE2EfMem RefineE2EfTac RefineE2EfStepW RefineE2EfStepI5
-  RefineE2EfRel RefineE2EfRelW RefineE2EfRelI RefineE2EfRelIO.
+From Wencry Require Import Bytes FileModel ModesProofs PipeConc PipeProps PipeLemmas MiniC MiniCLemmas MiniCConc SrcRun SrcRun4.
+From Wencry Require Import RefineConcPipe RefineConcDone RefineConcInit.
+From Wencry Require Import RefineConcSim RefineConcMem RefineConcMach RefineConcTac RefineConcStepW RefineConcStepI5
+  RefineConcRel RefineConcRelW RefineConcRelI RefineConcRelIO.
 Import ListNotations.
 Local Open Scope list_scope.
 
 Section Main.
-Context {LY : Layout} {LO : LayoutOk}.
 Variables (c T : nat) (pad : bool) (input0 : list N).
 Hypothesis Hc : (1 <= c)%nat.
 Hypothesis Hc32 : (16 * Z.of_nat c < 2 ^ 32)%Z.
 Hypothesis HT : (1 <= T <= 16)%nat.
 Hypothesis Hbytes : bytesb input0 = true.
+Hypothesis Hlen36 : (N.of_nat (List.length input0) < 2 ^ 36)%N.
 
 Notation sim := (sim c T pad input0).
 Notation step := (pstep c pad).
@@ -22,7 +22,7 @@ Notation cst := (cstate_md c T pad input0).
 
 (* ---- one step ---- *)
 Theorem sim_step : forall s cs tid s' evs, sim s cs -> step s tid = Some (s', evs) ->
-  exists n cs' evs', bnd n /\ cstep prog vt n cs tid = Ok (cs', evs') /\ nev evs' = evs /\ sim s' cs'.
+  exists n cs' evs', (n <= 200)%nat /\ cstep prog vt n cs tid = Ok (cs', evs') /\ nev evs' = evs /\ sim s' cs'.
 Proof.
   intros s cs tid s' evs Hsim Hst.
   assert (Lb : nT _ s = T) by (destruct Hsim as (d & g & _ & (L & _) & _); exact L).
@@ -30,10 +30,10 @@ Proof.
   - unfold step_real in Hst. destruct tid as [|i].
     + (* the I/O thread *)
       destruct (io _ s) eqn:Eio.
-      * pose proof (sim_io_wait c T pad input0 Hc Hc32 HT Hbytes s cs false Hsim Eio) as G.
+      * pose proof (sim_io_wait c T pad input0 Hc Hc32 HT Hbytes Hlen36 s cs false Hsim Eio) as G.
         unfold step_io in Hst. rewrite Eio in Hst. injection Hst as E. rewrite E in G. exact G.
       * unfold step_io in Hst. rewrite Eio in Hst. discriminate Hst.
-      * pose proof (sim_io_wait c T pad input0 Hc Hc32 HT Hbytes s cs true Hsim Eio) as G.
+      * pose proof (sim_io_wait c T pad input0 Hc Hc32 HT Hbytes Hlen36 s cs true Hsim Eio) as G.
         unfold step_io in Hst. rewrite Eio in Hst. injection Hst as E. rewrite E in G. exact G.
       * eapply sim_io_cmp; eassumption.
       * eapply sim_io_export; eassumption.
@@ -45,20 +45,22 @@ Proof.
     + rewrite Lb in Hst. destruct (Nat.ltb_spec i T) as [Hi|Hi]; [|discriminate Hst].
       eapply sim_worker; eassumption.
   - replace tid with (S T + (tid - T - 1))%nat by lia.
-    destruct (sim_spurious c T pad input0 Hc HT Hbytes s cs (tid - T - 1) s' evs Hsim Hst) as (cs' & evs' & H1 & H2 & H3).
-    exists 0%nat, cs', evs'. split; [exact I|]. split; [exact H1|]. split; assumption.
+    destruct (sim_spurious c T pad input0 Hc HT Hbytes Hlen36 s cs (tid - T - 1) s' evs Hsim Hst) as (cs' & evs' & H1 & H2 & H3).
+    exists 0%nat, cs', evs'. split; [lia|]. split; [exact H1|]. split; assumption.
 Qed.
 
-(* ---- the enabled threads ---- *)
-Lemma enabled_pt : forall s cs tid, sim s cs -> io _ s <> I_Done -> (tid <= T)%nat ->
-  MiniCConc.enabled cs tid = PipeConc.enabled LS Ltr Lev c pad s tid.
+(* ---- the number of enabled threads ---- *)
+Lemma enabled_agree : forall s cs, sim s cs -> io _ s <> I_Done ->
+  MiniCConc.enabled_count cs = PipeConc.enabled_count St tag_tr tag_event c pad s.
 Proof.
-  intros s cs tid (d & g & -> & Hdr & Htg & Hre) Hnd Hin.
+  intros s cs (d & g & -> & Hdr & Htg & Hre) Hnd.
   pose proof Hdr as (Lb & Lw & Lx & _).
+  unfold MiniCConc.enabled_count, PipeConc.enabled_count, nT. cbn [cstate_md cs_thr]. rewrite threads_length, Lb. f_equal.
+  apply filter_ext_in. intros tid Hin. apply in_seq in Hin.
   unfold MiniCConc.enabled, nth_thread, PipeConc.enabled, step_real. cbn [cstate_md cs_thr cs_mx cs_sh].
   destruct tid as [|i].
   - rewrite nth_thread_io. unfold step_io. cbv zeta.
-    destruct (io _ s) eqn:Eio; cbn [io_thread mk2 RefineE2EfLay.mk ct_st].
+    destruct (io _ s) eqn:Eio; cbn [io_thread mk2 RefineConcSim.mk ct_st].
     + destruct (i_wait St s false). destruct (first_is_lock _ _); reflexivity.
     + reflexivity.
     + destruct (i_wait St s true). reflexivity.
@@ -73,8 +75,8 @@ Proof.
   - assert (Hi : (i < T)%nat) by lia. rewrite nth_thread_worker by exact Hi. unfold nT. rewrite Lb.
     replace (i <? T)%nat with true by (symmetry; apply Nat.ltb_lt; exact Hi).
     unfold step_worker. fold (getw _ s i).
-    assert (Hx : nth_error (wsts _ s) i = Some (nth i (wsts _ s) LdS)) by (apply nth_error_some_nth; lia).
-    destruct (getw _ s i) eqn:Ew; cbn [worker_thread mk2 RefineE2EfLay.mk ct_st].
+    assert (Hx : nth_error (wsts _ s) i = Some (nth i (wsts _ s) (0%N, 0%N))) by (apply nth_error_some_nth; lia).
+    destruct (getw _ s i) eqn:Ew; cbn [worker_thread mk2 RefineConcSim.mk ct_st].
     + destruct (first_is_lock _ _); reflexivity.
     + destruct (w_wait St s i true false). destruct (first_is_lock _ _); reflexivity.
     + rewrite Hx. destruct (take_entry _ _ _ _ _ _) as [[[? ?] ?]|]; destruct (first_is_lock _ _); reflexivity.
@@ -86,15 +88,7 @@ Proof.
       destruct (take_entry _ _ _ _ _ _) as [[[? ?] ?]|]; destruct (first_is_lock _ _); reflexivity.
     + reflexivity.
 Qed.
-Lemma threads_sim : forall s cs, sim s cs -> List.length (cs_thr cs) = S T /\ nT _ s = T.
-Proof. intros s cs (d & g & -> & Hdr & _). destruct Hdr as (Lb & _). split; [apply threads_length|exact Lb]. Qed.
-Lemma enabled_agree : forall s cs, sim s cs -> io _ s <> I_Done ->
-  MiniCConc.enabled_count cs = PipeConc.enabled_count LS Ltr Lev c pad s.
-Proof.
-  intros s cs Hsim Hnd. destruct (threads_sim s cs Hsim) as [L1 L2].
-  unfold MiniCConc.enabled_count, PipeConc.enabled_count. rewrite L1, L2. f_equal.
-  apply filter_ext_in. intros tid Hin. apply in_seq in Hin. apply enabled_pt; [exact Hsim|exact Hnd|lia].
-Qed.
+
 
 (* ---- no step from a state whose I/O thread is done ---- *)
 Notation inv_done := (inv_done St).
@@ -118,54 +112,93 @@ Definition norm_log (l : list (nat * nat * list MiniCConc.event)) : list (nat * 
   map (fun x => match x with (tid, ne, evs) => (tid, ne, map norm_ev (filter (fun e => negb (is_marker e)) evs)) end) l.
 
 Lemma run_sim : forall sched s cs s' log, sim s cs -> inv_done s ->
-  run_events St Ltr Lev c pad s sched = Some (s', log) ->
-  exists F cs' log', (forall F', (F <= F')%nat -> crun prog vt F' cs sched = Ok (cs', log')) /\ norm_log log' = log /\ sim s' cs' /\ inv_done s'.
+  run_events St tag_tr tag_event c pad s sched = Some (s', log) ->
+  exists cs' log', crun prog vt (5000 + 400 * c) cs sched = Ok (cs', log') /\ norm_log log' = log /\ sim s' cs' /\ inv_done s'.
 Proof.
   induction sched as [|tid sched IH]; intros s cs s' log Hsim Hinv Hrun.
-  - cbn [run_events] in Hrun. injection Hrun as <- <-. exists 0%nat, cs, []. repeat split; try assumption. 
+  - cbn [run_events] in Hrun. injection Hrun as <- <-. exists cs, []. repeat split; assumption.
   - cbn [run_events] in Hrun. destruct (step s tid) as [[s1 evs]|] eqn:Est; [|discriminate Hrun].
-    destruct (run_events St Ltr Lev c pad s1 sched) as [[s2 l]|] eqn:Er; [|discriminate Hrun]. injection Hrun as <- <-.
+    destruct (run_events St tag_tr tag_event c pad s1 sched) as [[s2 l]|] eqn:Er; [|discriminate Hrun]. injection Hrun as <- <-.
     destruct (sim_step s cs tid s1 evs Hsim Est) as (n & cs1 & evs1 & Hn & Hcs & Hev & Hsim1).
     assert (Hsh : List.length (wpcs _ s) = T /\ List.length (bufs _ s) = T /\ List.length (wsts _ s) = T).
     { destruct Hsim as (d & g & _ & (L1 & L2 & L3 & _) & _). auto. }
     destruct Hsh as (Lw & Lb & Lx).
-    assert (Hinv1 : inv_done s1) by (eapply (inv_done_step St Ltr Lev c pad LdS); [| |exact Hinv|exact Est]; lia).
-    destruct (IH s1 cs1 s2 l Hsim1 Hinv1 Er) as (F & cs2 & l2 & Hcr & Hl & Hsim2 & Hinv2).
-    exists (Nat.max n F), cs2, ((tid, MiniCConc.enabled_count cs, evs1) :: l2).
+    assert (Hinv1 : inv_done s1) by (eapply (inv_done_step St tag_tr tag_event c pad (0%N, 0%N)); [| |exact Hinv|exact Est]; lia).
+    destruct (IH s1 cs1 s2 l Hsim1 Hinv1 Er) as (cs2 & l2 & Hcr & Hl & Hsim2 & Hinv2).
+    exists cs2, ((tid, MiniCConc.enabled_count cs, evs1) :: l2).
     split.
-    + intros F' HF'. cbn [crun]. rewrite (cstep_mono n cs tid _ Hcs) by lia. cbn [bind]. rewrite Hcr by lia. reflexivity.
+    + cbn [crun]. rewrite (cstep_mono n cs tid _ Hcs) by lia. cbn [bind]. rewrite Hcr. reflexivity.
     + split; [|split; assumption]. cbn [norm_log map]. fold (nev evs1). rewrite Hev. fold (norm_log l2). rewrite Hl.
       rewrite (enabled_agree s cs Hsim (step_not_done s tid s1 evs Hinv Lw Lb Est)). reflexivity.
 Qed.
 
-(* ---- the initial states are related ---- *)
-Definition mb_init (c : nat) : mbuf := {| mb_cells := repeat 0%Z (16 * c); mb_tot := 0; mb_now := 0; mb_tail := 0; mb_fin := false; mb_st := 0 |}.
-Definition d_init0 (c T : nat) (sm : memory) : mdata :=
-  {| d_turn := 0; d_over := false; d_live := T; d_sm := sm; d_bufs := repeat (mb_init c) T; d_pos := Lpos0; d_eof := false; d_out := Lout0 |}.
-Definition g_init0 (T : nat) : tghost := {| g_rb := []; g_bu := []; g_wl := map wl0 (seq 0 T) |}.
 
-Lemma sim_init : forall sm, (forall i, (i < T)%nat -> srep T i (nth i (Lsig0 T) LdS) sm) ->
-  sim (init St T (Lsig0 T) (loads_of c pad (skipn Lpos0 input0)))
-      (cstate_md c T pad input0 I_WaitUpdate (repeat W_New T) (d_init0 c T sm) (g_init0 T)).
+(* ---- the initial states are related ---- *)
+Lemma sim_init : sim (init St T (tag_init T) (loads_of c pad input0))
+                     (cstate_md c T pad input0 I_WaitUpdate (repeat W_New T) (d_init c T) (g_init T)).
 Proof.
-  intros sm Hsm. exists (d_init0 c T sm), (g_init0 T). split; [reflexivity|]. split; [|split].
-  - unfold drel, d_init0, init. cbn [bufs wpcs wsts turn over live crashed output input io d_bufs d_sm d_turn d_over d_live d_out d_pos d_eof].
-    rewrite !repeat_length. rewrite sig0_length.
-    split; [reflexivity|]. split; [reflexivity|]. split; [reflexivity|]. split; [reflexivity|]. split; [exact out0_bytes|]. split; [reflexivity|].
-    split; [lia|]. split; [reflexivity|]. split; [reflexivity|]. split; [lia|]. split; [reflexivity|]. split; [cbn [concat map]; rewrite app_nil_r; reflexivity|].
+  exists (d_init c T), (g_init T). split; [reflexivity|]. split; [|split].
+  - unfold drel, d_init, init. cbn [bufs wpcs wsts turn over live crashed output input io d_bufs d_ns d_turn d_over d_live d_out d_pos d_eof].
+    rewrite !repeat_length. unfold tag_init. rewrite map_length, seq_length.
+    split; [reflexivity|]. split; [reflexivity|]. split; [reflexivity|]. split; [reflexivity|]. split; [reflexivity|]. split; [reflexivity|].
+    split; [lia|]. split; [reflexivity|]. split; [reflexivity|]. split; [lia|]. split; [reflexivity|]. split; [reflexivity|].
     split; [|split].
     + intros i Hi. unfold getb. cbn [bufs]. rewrite !nth_repeat_lt by exact Hi.
       unfold brel, mb_init, empty_buf. cbn [mb_st mb_fin mb_cells mb_tot mb_now b_st b_total b_now b_final b_data bst_code].
       split; [reflexivity|]. split; [reflexivity|]. split; [rewrite repeat_length; lia|].
       split; [apply Forall_forall; intros z Hz; apply repeat_spec in Hz; subst z; unfold byteZ; lia|].
       left. repeat split; try reflexivity; try lia. constructor.
-    + exact Hsm.
+    + intros i Hi. cbn zeta. rewrite nth_repeat_lt by exact Hi.
+      rewrite (nth_indep _ (0%N, 0%N) ((fun i => (N.of_nat i, 0%N)) 0%nat)) by (rewrite map_length, seq_length; exact Hi).
+      rewrite (map_nth (fun i => (N.of_nat i, 0%N))). rewrite seq_nth by exact Hi. cbn [fst snd Nat.add]. split; reflexivity.
     + intros _. cbn [skipn]. split; [reflexivity|]. split; [lia|reflexivity].
-  - unfold tg_ok, g_init0. cbn [g_wl g_rb g_bu init io]. rewrite map_length, seq_length.
+  - unfold tg_ok, g_init. cbn [g_wl g_rb g_bu init io]. rewrite map_length, seq_length.
     split; [reflexivity|]. split; [left; reflexivity|]. split; [exact I|].
     intros i Hi. unfold getw. cbn [init wpcs]. rewrite nth_repeat_lt by exact Hi. cbn [wl_ok].
     rewrite (nth_indep _ [] (wl0 0)) by (rewrite map_length, seq_length; exact Hi). rewrite (map_nth wl0), seq_nth by exact Hi. reflexivity.
-  - apply (reach_init c T pad (skipn Lpos0 input0) Hc (proj1 HT) (bskip Lpos0 input0 Hbytes) LS Ltr Lev LdS (Lsig0 T) (sig0_length T)).
+  - apply (reach_init c T pad input0 Hc (proj1 HT) Hbytes).
 Qed.
 
 End Main.
+
+(* ================= the theorem ================= *)
+Lemma SRC_protocol_follows_PipeConc_proof : forall c T (ispadding : bool) input sched s log,
+  (1 <= c)%nat -> (N.of_nat (16 * c) < 2 ^ 32)%N -> (1 <= T <= 16)%nat -> bytesb input = true ->
+  (N.of_nat (List.length input) < 2 ^ 36)%N ->
+  tag_run c T ispadding input sched = Some (s, log) ->
+  exists cs log',
+    conc_src_run c T ispadding input sched = SOk (cs, log') /\
+    norm_log log' = log /\
+    (terminal (N * N) s = true -> all_done cs = true /\ conc_output cs = concat (output (N * N) s)).
+Proof.
+  intros c T pad input sched s log Hc Hc32N HT Hb Hl Hrun.
+  assert (Hc32 : (16 * Z.of_nat c < 2 ^ 32)%Z) by lia.
+  unfold tag_run in Hrun.
+  destruct (run_sim c T pad input Hc Hc32 HT Hb Hl sched _ _ s log (sim_init c T pad input Hc HT Hb Hl)) as (cs & log' & Hcr & Hlog & Hsim & Hinv).
+  - unfold RefineConcDone.inv_done, init. cbn [io]. exact I.
+  - exact Hrun.
+  - exists cs, log'. split; [|split; [exact Hlog|]].
+    + unfold conc_src_run. rewrite (init_state c T pad input HT). rewrite Hcr. reflexivity.
+    + intros Hterm. destruct Hsim as (d & g & -> & Hdr & Htg & Hre).
+      pose proof Hdr as (Lb & Lw & Lx & Ldb & Ldn & Htu & HtT & Hov & Hlv & HlT & Hcr' & Hout & _).
+      unfold terminal in Hterm. destruct (io _ s) eqn:Eio; try discriminate Hterm.
+      split.
+      * unfold all_done. cbn [cstate_md cs_thr threads_of skipn]. apply forallb_forall. intros t Ht.
+        apply in_map_iff in Ht. destruct Ht as (i & <- & Hi). apply in_seq in Hi.
+        assert (Hd : nth i (wpcs _ s) W_Done = W_Done).
+        { assert (In (nth i (wpcs _ s) W_Done) (wpcs _ s)) by (apply nth_In; lia).
+          pose proof (proj1 (forallb_forall _ _) Hterm _ H) as Q. destruct (nth i (wpcs _ s) W_Done); try discriminate Q; reflexivity. }
+        rewrite Hd. reflexivity.
+      * unfold conc_output. cbn [cstate_md cs_sh sh_of files files_of lget String.eqb Ascii.eqb Bool.eqb cf_data].
+        rewrite Hout. rewrite map_map. rewrite <- (map_id (concat (output _ s))) at 2. apply map_ext. intros a. apply N2Z.id.
+Qed.
+
+(* non-vacuity: the hypotheses are satisfiable, with a complete schedule (terminal state, spurious wake-ups included) *)
+Example SRC_protocol_nonvacuous :
+  let inp := ex_bytes 40 in let sc := mksched 1 2 true inp 7%N in
+  (1 <= 1)%nat /\ (N.of_nat (16 * 1) < 2 ^ 32)%N /\ (1 <= 2 <= 16)%nat /\ bytesb inp = true /\ (N.of_nat (List.length inp) < 2 ^ 36)%N /\
+  match tag_run 1 2 true inp sc with
+  | Some (s, log) => terminal (N * N) s = true /\ (10 <= List.length log)%nat /\ existsb (fun t => Nat.ltb 2 t) sc = true
+  | None => False
+  end.
+Proof. vm_compute. repeat split; try reflexivity; try lia. all: intro H; discriminate H. Qed.
